@@ -17,8 +17,13 @@ def obligations(tier):
     for (n, p) in ([(3, 1)] if not th else [(3, 1), (4, 1), (4, 2), (5, 2)]):
         for ny in (1, 2):
           for resp in range(ny):
-            obs.append(Ob(id=f'mlr/n{n}p{p}ny{ny}/response{resp}', harness='C07/mlr.c', tus=T, defs={'HP_N': n, 'HP_P': p, 'HP_NY': ny, 'HP_RESP': resp}, engine='real', unwind=10, timeout=to,
+            obs.append(Ob(id=f'mlr/n{n}p{p}ny{ny}/response{resp}', harness='C07/mlr.c', tus=T, defs={'HP_N': n, 'HP_P': p, 'HP_NY': ny, 'HP_RESP': resp}, engine='real', unwind=10, timeout=to if th else 60,      # end to end through the real inversion: undecided at 200 s since the repair of MatrixInversion added row exchanges (kept: it still finds counterexamples within seconds); the decided route is mlr_given_ols/* below
                           clause='normal equations, predictions, R2, SDEC', stubs=('sym_real_env.c',), real={'nomissing': True}))
+    for (n, p) in ([(3, 1), (3, 2)] if not th else [(3, 1), (3, 2), (4, 2), (4, 3)]):
+        for ny in (1, 2):
+          for resp in range(ny):
+            obs.append(Ob(id=f'mlr_given_ols/n{n}p{p}ny{ny}/response{resp}', harness='C07/mlr.c', tus=T, defs={'HP_N': n, 'HP_P': p, 'HP_NY': ny, 'HP_RESP': resp, 'HP_OLS_CONTRACT': 1}, engine='real', unwind=10, timeout=to,
+                          clause='normal equations, predictions, R2, SDEC (MLR around the least-squares contract)', remove=('OrdinaryLeastSquares',), stubs=('sym_real_env.c',), real={'nomissing': True}))
     for off in ('16777216.0', '134217728.0', '-1000000000.0'):
         for n in ((2, 3) if not th else (2, 3, 4)):
             obs.append(Ob(id=f'ieee_offset/r2/n{n}/off{off}', harness='C07/ieee_offset.c', tus=T, defs={'HP_N': n, 'HP_OFFSET': off}, engine='bits', unwind=8, timeout=300 if not th else 1800,
